@@ -238,6 +238,20 @@ func genKeyGrid(r *rng, n int, p func(string, ...any)) {
 			p("keyuse %s", okp(wArr(wInt(2), wTstr(nm))))
 		}
 	}
+	// labels wrapped in a tag (55799 is stripped silently by the CBOR library): refused
+	for _, tag := range []uint64{55799, 1, 100} {
+		for fi := 0; fi < 5; fi++ {
+			k := &keyFields{kty: wInt(1), crv: wInt(6), x: wBstr(r.bytes(32))}
+			m := k.wire(nil)
+			if 2*fi < len(m.Items) {
+				m.Items[2*fi] = wTag(tag, m.Items[2*fi])
+			}
+			p("keyuse %s", hexs(m.enc()))
+			p("dec key %s", hexs(m.enc()))
+		}
+		p("keyuse %s", hexs(wMap(wTag(tag, wInt(1)), wInt(4), wInt(-1), wBstr([]byte{0xaa})).enc()))
+		p("keyuse %s", hexs(wMap(wInt(1), wInt(4), wInt(-1), wBstr([]byte{0xaa}), wTag(tag, wTstr("a")), wInt(1)).enc()))
+	}
 	// an integer label and the text label that spells it: two different labels, both kept
 	for _, n := range []int64{-2, -1, 7, 99, -70001, 1, 3} {
 		k := &keyFields{kty: wInt(2), crv: wInt(1), x: wBstr(coordOfLen(r, 32)), y: wBstr(coordOfLen(r, 32))}
